@@ -36,6 +36,7 @@ FIXED = [
  ("C19", "fix: whitespace-control hyphens are found next to custom delimiters of any length", "with delimiters whose length is not 2, hyphens were ignored or ordinary characters taken as hyphens"),
  ("C19", "fix: a right tag delimiter containing regexp metacharacters", "a right tag delimiter such as *) made the scanner panic in regexp.MustCompile"),
  ("C01", "fix: indexing a map with an unhashable key yields nil", "{{ m[k] }} with an interface-keyed map and k = [1]any{[]int{1}} panicked with 'hash of unhashable type'"),
+ ("C18", "fix: printing a map shows the values of nested Drops and pointers", "{{ m }} printed Drop entries as Go structs ({x}) and pointer entries as memory addresses (0xc000...), so output depended on representation and memory layout (also C02)"),
  ("C01", "fix: property access on a map whose keys are not strings", "{{ m.foo }} / {{ m.size }} on a map[int]string panicked in reflect.Value.MapIndex"),
 ]
 KNOWN = [
